@@ -1,8 +1,51 @@
 import SLModel.Drv.Util
+import SLModel.Drv.AggsJson
+import SLModel.Core.Aggs
 open Lean
 namespace SL.Drv.C30
+open SL.Drv SL.Drv.AggsJson SL.Aggs
 
-/-- stub: no model operations for C30 yet -/
-def handle (_req : Json) : Except String Json := .error "C30: not implemented"
+/-- (name, is_terms) of the composite sources of a request -/
+def sourceKinds (agg : Json) : Except String (List (String × Bool)) := do
+  let ss ← getArr agg "sources"
+  ss.toList.mapM (fun s => do
+    return (← getStr s "name", (← getStr s "type") == "terms"))
+
+def pageToJson (p : Buckets String × Option (Key String)) : Json :=
+  Json.mkObj [("buckets", Json.arr (p.1.map (fun b => Json.mkObj [("key", keyToJson b.1), ("count", b.2.1)])).toArray),
+    ("after", match p.2 with | some k => keyToJson k | none => Json.null)]
+
+/--
+* `{"op":"walk","fields":…,"segs":…,"agg":<composite request without after>}` → the pages of
+  `compositeWalk` over the merged bucket map of the mechanism (`mergeAll` of the per-segment
+  `collect`s), each `after_key` sent back through `afterOfKey` (JSON round trip);
+* `{"op":"page","fields":…,"segs":…,"agg":<composite request>}` → `SL.Aggs.run` (children included);
+* `{"op":"cmp","a":[part…],"b":[part…]}` → `partsLt a b`, `partsLt b a`.
+-/
+def handle (req : Json) : Except String Json := do
+  let op ← getStr req "op"
+  match op with
+  | "walk" =>
+    let fields := (getOpt req "fields").getD (Json.mkObj [])
+    let segs ← parseSegs (← req.getObjVal? "segs")
+    let aggj ← req.getObjVal? "agg"
+    let agg ← parseAgg fields aggj
+    let kinds ← sourceKinds aggj
+    let size ← getNat aggj "size"
+    match mergeAll agg (segs.map (collect agg)) with
+    | some (.buckets bs _) =>
+      let pages := compositeWalk kinds size bs (bs.length + 1) none
+      return Json.mkObj [("pages", Json.arr (pages.map pageToJson).toArray), ("total", bs.length)]
+    | _ => return Json.mkObj [("pages", Json.arr #[]), ("total", (0 : Nat))]
+  | "page" =>
+    let fields := (getOpt req "fields").getD (Json.mkObj [])
+    let segs ← parseSegs (← req.getObjVal? "segs")
+    let agg ← parseAgg fields (← req.getObjVal? "agg")
+    return Json.mkObj [("resp", match run agg segs with | some n => nodeToJson n | none => Json.null)]
+  | "cmp" =>
+    let a ← (← getArr req "a").toList.mapM partOfJson
+    let b ← (← getArr req "b").toList.mapM partOfJson
+    return Json.mkObj [("lt", partsLt a b), ("gt", partsLt b a)]
+  | _ => throw s!"C30: unknown op {op}"
 
 end SL.Drv.C30
